@@ -27,7 +27,8 @@ type World struct {
 	origRg   map[int]*astisub.Region
 	textAtom map[string]int
 	Decorate bool
-	Scheme   int // how the even text atoms are laid out (see Build)
+	Scheme   int  // how the even text atoms are laid out (see Build)
+	Twins    bool // a style's parent pointer is an object of its own carrying the parent's ID, not the object the list defines
 }
 
 func NewWorld(unit time.Duration, decorate bool) *World {
@@ -83,6 +84,11 @@ func (w *World) Build(a abs.Subs) *astisub.Subtitles {
 	}
 	for _, d := range a.Styles {
 		byID[d.ID].Style = styleRef(d.Parent)
+		if w.Twins && d.Parent != "" {
+			// what Merge leaves behind when both lists define the parent: the child points at its own list's object,
+			// the receiver's map holds another one under the same identifier (references are by identifier)
+			byID[d.ID].Style = &astisub.Style{ID: d.Parent}
+		}
 	}
 	regByID := map[string]*astisub.Region{}
 	for k, d := range a.Regions {
@@ -111,6 +117,9 @@ func (w *World) Build(a abs.Subs) *astisub.Subtitles {
 		// (scheme 0); or the odd atom's line after an empty first line (scheme 1); or no text line at all (scheme 2,
 		// cues without run styles)
 		txt, second, lead, lineless := atomText(c.T), "", false, false
+		if c.T == -1 {
+			txt = FillerText // a genuine cue that happens to carry the placeholder text
+		}
 		if c.T > 0 && c.T%2 == 0 {
 			switch {
 			case w.Scheme == 1:
@@ -310,6 +319,7 @@ func (w *World) contentOK(it *astisub.Item, stripped bool) bool {
 func Exec(n int, c abs.OpCase, unit time.Duration, decorate bool) []abs.OpEvent {
 	w := NewWorld(unit, decorate)
 	w.Scheme = n % 3
+	w.Twins = n%5 == 4
 	if c.Op == "optimize" || c.Op == "removestyling" || c.Op == "merge" {
 		w.Scheme = 0 // those lists are also written to files: an empty first line or no line at all is not representable there
 	}
